@@ -274,6 +274,8 @@ def run(F, chk):
             for bi, t in b.calls():
                 c = callee_of(t)
                 if c in PANICS or c.startswith("core::panicking::"):
+                    if "debug_assert" in t.get("m", ""):
+                        continue   # debug-assertion configurations only
                     n += 1
                     key = "%s|%s#%d" % (fp, c.split("::")[-1], n)
                     m = t.get("m", "")
